@@ -263,6 +263,22 @@ bool Executor::native(State &s, CallBase *cb, Function *f, std::vector<Val> &a, 
             return true;
         }
         if (n == "nixsym_print") { if (opt.verbose) errs() << "[harness] " << nameArg(0) << "\n"; return true; }
+        if (n == "nixsym_count_values") {
+            // (v, max): number of feasible values of v on this path, capped at max; nothing is added to the path condition
+            Val v = a[0]; uint64_t mx = a[1].lo;
+            if (v.k == Val::INT || v.k == Val::UNDEF) { ret = mkInt(32, 1); return true; }
+            z3::expr e = v.bits == 1 ? z3::ite(toBool(v), ZC->bv_val(1, 1), ZC->bv_val(0, 1)) : toBV(v);
+            z3::expr excl = ZC->bool_val(true); uint64_t cnt = 0;
+            while (cnt < mx) {
+                z3::model m(*ZC);
+                z3::check_result r = check(s, excl, opt.assertTimeoutMs, &m);
+                if (r == z3::unsat) break;
+                uint64_t x = 0;
+                if (r != z3::sat || !m.eval(e, true).is_numeral_u64(x)) { inconclusive = true; inconclusiveWhy = "solver gave no verdict while counting the values of a term"; break; }
+                cnt++; excl = excl && (e != ZC->bv_val((uint64_t)x, v.bits == 1 ? 1 : v.bits));
+            }
+            ret = mkInt(32, cnt); return true;
+        }
         if (n == "nixsym_concretize_u64") {
             Val v = a[1]; if (!concretize(s, v, cb, "harness value", (unsigned)a[2].lo)) { ended = true; return false; }
             ret = v; return true;
@@ -437,7 +453,13 @@ bool Executor::native(State &s, CallBase *cb, Function *f, std::vector<Val> &a, 
     // documented sequence; what matters to C12 is *that* it is consulted (recorded in the natives list).
     if (n.startswith("_ZNSt13random_device")) {
         nativeUse[n.str()]++;
-        if (n.contains("_M_getval")) { static uint32_t ctr = 0; ret = mkInt(32, 0x9e3779b9u + 0x7f4a7c15u * (ctr++)); return true; }
+        if (n.contains("_M_getval") || n == "_ZNSt13random_deviceclEv") {
+            if (opt.symbolicEntropy) { ret = freshSym(s, "entropy", 32, false); return true; }      // the draw is an input: any 32-bit value
+            { auto fx = opt.fixedChoice.find("entropy"); if (fx != opt.fixedChoice.end()) {               // --fix entropy=k: the k-th of a few fixed draws
+                uint32_t v = 0x9e3779b9u ^ ((uint32_t)fx->second * 0x01000193u);
+                s.inputs.push_back({"entropy", mkInt(32, v)}); ret = mkInt(32, v); return true; } }
+            static uint32_t ctr = 0; ret = mkInt(32, 0x9e3779b9u + 0x7f4a7c15u * (ctr++)); return true;
+        }
         if (n.contains("_M_getentropy")) { ret = mkF64(32.0); return true; }
         return true;   // _M_init / _M_fini / _M_init_pretr1
     }
